@@ -32,10 +32,13 @@ CORE_LEAVES = {'none', 'box'}
 ALL_CONT = {'list', 'tuple', 'set', 'sdict', 'gdict', 'inst'}
 
 
-def cfg(kinds, N, E, deg=2, pairs=1, nkeys=2, fixed=False, emit=True, rvars=(1, 2, 3, 4), globs=(0,), roots=None):
-    return dict(spec='Spec', check_deadlock=True, invariants=INVARIANTS,
+def cfg(kinds, N, E, deg=2, pairs=1, nkeys=2, fixed=True, emit=True, rvars=(1, 2, 3, 4, 5), globs=(0,), roots=None, invariants=None):
+    return dict(spec='Spec', check_deadlock=True, invariants=invariants or INVARIANTS,
                 constants=dict(MaxNodes=N, MaxEdges=E, MaxDeg=deg, MaxPairs=pairs, NKeys=nkeys, Kinds=set(kinds), RootKinds=set(roots or kinds),
                                IntVals={0, 1}, GlobVals=set(globs), RVariants=set(rvars), ReduceFixed=fixed, Emit=emit))
+
+
+RKINDS = {'reduce', 'glob', 'tuple', 'sdict', 'box'}
 
 
 def mc_configs(tier):
@@ -43,19 +46,28 @@ def mc_configs(tier):
     q = tier == 'quick'
     out = [
         ('core4', cfg({'none', 'box', 'list', 'tuple'}, 4, 4 if q else 5), 1),
-        ('cont3', cfg(CORE_LEAVES | ALL_CONT, 3, 3 if q else 4), 1 if q else 1),
+        ('cont3', cfg(({'box'} if q else CORE_LEAVES) | ALL_CONT, 3, 3 if q else 4), 1),
         ('leaf3', cfg({'none', 'int', 'box', 'arr', 'dtype', 'glob', 'range', 'list', 'tuple', 'set', 'gdict'}, 3, 3 if q else 4,
                       globs=(0, 1)), 1),
-        # C17_ASSUME_PATCHED=1: predictions of the patched save_reduce (to try the proposed patch in a scratch tree)
-        ('reduce', cfg({'reduce', 'glob', 'tuple', 'sdict', 'box'}, 5 if q else 6, 5 if q else 6, roots={'reduce'},
-                       fixed=bool(os.environ.get('C17_ASSUME_PATCHED')),
-                       rvars=(1, 2, 3) if os.environ.get('C17_ASSUME_PATCHED') else (1, 2, 3, 4)), 1),
-        ('reduce-patched', cfg({'reduce', 'glob', 'tuple', 'sdict', 'box'}, 5, 5, roots={'reduce'},
-                               fixed=True, emit=False, rvars=(1, 2, 3)), 0),
+        # objects saved through __reduce__: state / listitems / dictitems / state_setter
+        ('reduce', cfg(RKINDS, 5 if q else 6, 5 if q else 6, roots={'reduce'}, globs=(0, 2)), 1),
     ]
     if not q:
         out.append(('core5', cfg({'box', 'list', 'tuple'}, 5, 5), 1))
     return out
+
+
+def witness_old_protocol(ctx):
+    """non-vacuity of RoundTrip: under the save_reduce protocol as it was before fix a37a275 (ReduceFixed = FALSE)
+    TLC must find a graph violating the plain round-trip theorem"""
+    c = cfg(RKINDS, 4, 4, roots={'reduce'}, fixed=False, emit=False, rvars=(1, 2, 3, 4), invariants=['RoundTripPlain'])
+    res = run_tlc(ctx, 'reduce-old-protocol', c)
+    hit = 'RoundTripPlain' in res.violated
+    g = res.error_trace[-1][1].get('g') if res.error_trace else None
+    ctx.notes['witness_old_save_reduce'] = dict(violates_RoundTripPlain=hit, states=res.distinct,
+                                                counterexample_graph=tlaval.to_jsonable(g))
+    if not hit:
+        raise core.MachineryError('witness run: the old save_reduce protocol no longer violates RoundTripPlain (vacuous invariant?)')
 
 
 _NOISE = re.compile(r'^(Progress\(|Checkpointing|Finished|Computing|Computed|Warning|TLC |Starting|Implied|Semantic|Parsing|Linting)')
@@ -128,16 +140,10 @@ class Scratch:
 
 def graph_feature(g, objs):
     vs = {nd['v'] for nd in g if nd['k'] == 'reduce'}
-    indeg = {}
-    for nd in g:
-        for c in nd['ch']:
-            indeg[c] = indeg.get(c, 0) + 1
-    if any(nd['k'] == 'box' and type(objs[i]) is int and indeg.get(i, 0) > 1 for i, nd in enumerate(g, 1)):
-        return 'bigint-shared'  # known finding: the saver memorizes str(obj) instead of obj for ints > 2**64
-    if vs & {2, 3}:
-        return 'reduce-listitems'
-    if 4 in vs:
-        return 'reduce-dictitems'
+    if 5 in vs:
+        return 'reduce-state-setter'    # known finding: the loader returns the return value of the setter
+    if vs:
+        return 'reduce'
     return 'containers'
 
 
@@ -309,7 +315,7 @@ def graph_layer(ctx):
     stats = {}
     quick = ctx.tier == 'quick'
     # replay every k-th graph of the big enumerations (seeded)
-    share_q = {'core4': 3, 'cont3': 4} if quick else {'cont3': 2}
+    share_q = {'core4': 4, 'cont3': 4, 'leaf3': 2, 'reduce': 2} if quick else {'cont3': 2}
     try:
         idx = 0
         cfgs = [(name, c, share) for name, c, share in mc_configs(ctx.tier)
@@ -350,6 +356,8 @@ def graph_layer(ctx):
                                    tuple_back_edges=sum(1 for r in table.values() if r['tback']) if share else 0,
                                    replay_s=round(time.time() - t1, 1))
         ctx.notes['graph_layer'] = stats
+        if not ctx.only or 'witness' in ctx.only or 'graph' in ctx.only:
+            witness_old_protocol(ctx)
     finally:
         scratch.close()
 
@@ -365,7 +373,7 @@ def sim_configs(tier):
     q = tier == 'quick'
     c = cfg(CORE_LEAVES | ALL_CONT | {'arr', 'int'}, 7, 10, deg=3, pairs=2, nkeys=3)
     c['check_deadlock'] = False
-    return [('sim7', c, 300 if q else 4000, 150)]
+    return [('sim7', c, 200 if q else 4000, 150)]
 
 
 class _Single:
@@ -888,6 +896,7 @@ def class_layer(ctx, only_label=None):
     covered = {}
     scratch = Scratch()
     results = {}
+    ninst = 0
     try:
         for label, obj in insts:
             if only_label and label != only_label:
@@ -898,6 +907,10 @@ def class_layer(ctx, only_label=None):
             top = type(obj).__name__ if not isinstance(obj, dict) else 'dict'
             media = [('pickle', None)]
             fmts = LEG_FORMATS if contains_legs(obj) else ('blocks',)
+            if ctx.tier == 'quick' and len(fmts) == 3 and (hasattr(obj, 'lat') or isinstance(obj, dict)):
+                # models are slow to save: one seeded leg format each in the quick tier (all three in thorough)
+                ninst += 1
+                fmts = (LEG_FORMATS[(ninst + ctx.seed) % 3],)
             media += [('hdf5', f) for f in fmts]
             for medium, fmt in media:
                 ctx.case('class:%s:%s:%s' % (label, medium, fmt), action='Class.%s' % medium)
